@@ -240,7 +240,6 @@ func (r *rwRT) ruleMutGuard() {
 	}
 }
 
-
 // reachesCursorMutator: does fn (statically, within depth) call a mutator of astutil.Cursor?
 func reachesCursorMutator(fn *ssa.Function, depth int) bool {
 	fn = bodyOf(fn)
